@@ -22,6 +22,7 @@ class ExprFamily(Family):
 
     def gen(self, rng, tier, n):
         g = X.Gen(rng)
+        g.big_ok = True
         for case in self.genf(g, rng, tier, n):
             if rng.random() < 0.12 and "env" not in case:
                 case = with_context(g, rng, case)
